@@ -26,6 +26,9 @@ class FlatMapFuture(MapFuture):
 
         self.__flattened = True
         self._map_fn = lambda x: x
+        # The error function applies to the input future only; the flattened
+        # future's own outcome must be propagated untouched.
+        self._error_fn = None
         self._set_delegate(result)
 
 
